@@ -229,6 +229,10 @@ CONTENT_FAULTS = {
     # next file (seeded change C04-m11 kept raising checks in a class-level set and skipped them from then on)
     "deep_call_chain_checks_raise": {"gen": "deep_call_chain", "n": 800},
     "too_many_parens": {"gen": "deep_paren", "n": 400},
+    # VALID programs whose string constants hold lone surrogates (escapes): the constant reaches an issue text (B105 quotes the value), and every report must
+    # still be writable (found on the unchanged tree: "'utf-8' codec can't encode character '\\ud800' ... surrogates not allowed", no report at all)
+    "lone_surrogate_constant": b'import pickle\npassword = "\\ud800"\ntoken = "ab\\udcffcd"\n',
+    "lone_surrogate_keyword": b'import pickle\nconnect(password="\\udfff")\n',
 }
 
 
@@ -870,6 +874,10 @@ def enumeration(thorough):
                 spec = src if isinstance(src, dict) else b64(src)
                 for ign in (False, True):
                     out.append((f"{kind}/N{n}/p{pos}/ign{int(ign)}", with_faulty(n, pos, spec, None, ignore_nosec=ign)))
+            # a file whose NAME is not valid UTF-8 (os.fsdecode gives it a lone surrogate): healthy content, a syntax error, an open() failure — the name reaches
+            # every report (results, metrics, skipped list)
+            for kind, spec in (("badname_healthy", b64(FAULTY_BODY)), ("badname_syntax", b64(CONTENT_FAULTS["syntax_error"]))):
+                out.append((f"{kind}/N{n}/p{pos}", with_faulty(n, pos, spec, None, faulty_name="%02d_f\udcff\udce9.py" % pos)))
     return out
 
 
